@@ -5,6 +5,7 @@ PROPERTY = "C13"
 LEAN_MODULES = ["KafVerif.Props.C13"]
 OBLIGATIONS = [
     "KafVerif.C13.commit_fenced",
+    "KafVerif.C13.negative_generation_commit_fenced",
     "KafVerif.C13.heartbeat_fenced",
     "KafVerif.C13.sync_fenced",
     "KafVerif.C13.generation_mono",
@@ -25,10 +26,11 @@ LEVEL_TEXT = ("Lean 4 theorems about the executable model of GroupCoordinator: a
               "(witness). Tied to the source by the differential run, including two-request schedules through a gate in the store.")
 TECHNIQUE = "Lean 4 proof over a hand-written model + Go/Lean differential correspondence (incl. gated two-request schedules) + property monitor"
 
-PROFILE = G.profile(etcd_quick=4, etcd_thorough=30, weights={"commit": 12, "hb": 10, "sync": 8, "race": 6, "leave": 4, "tick": 7, "fetch": 1, "fail": 0, "meta": 0,
+PROFILE = G.profile(etcd_quick=4, etcd_thorough=30, weights={"fence": 16, "commit": 12, "hb": 10, "sync": 8, "race": 6, "leave": 4, "tick": 7, "fetch": 1, "fail": 0, "meta": 0,
                              "failover": 2},
                     stale_gen=30, timeouts=[10000, 20000, 30000])
-RULE = ("membership histories with commits/heartbeats/syncs from current, stale-generation, expired, departed and unknown members, "
+RULE = ("one deterministic sweep of non-member / wrong-generation requests (member id \"\", unknown, removed; generation -1, 0, g-1, g, g+1, huge) "
+        "in every group phase, plus generated membership histories with commits/heartbeats/syncs from current, stale-generation, expired, departed and unknown members, "
         "session expiries, failovers and two-request commit races, generated from VERIF_SEED; non-trivial = a group reached "
         "Stable or a commit was accepted; distinct = distinct implementation traces")
 
@@ -90,8 +92,29 @@ def monitor(tr):
     return out
 
 
+def fence_history():
+    """Deterministic sweep: every kind of non-member / wrong-generation request in every phase of a live group
+    (CompletingRebalance, Stable, PreparingRebalance, after a leave, after an expiry, after a failover)."""
+    probes = []
+    for mem in ("-", "x7", "m9", "c9"):
+        for gen in ("-1", "0", "@", "1", "2", "1000000"):
+            probes.append("commit 1 %s %s 0:0:7:1" % (mem, gen))
+            probes.append("hb 1 %s %s" % (mem, gen))
+            probes.append("sync 1 %s %s" % (mem, gen))
+    stale = ["commit 1 c1 -1 0:0:8:1", "commit 1 c1 @-1 0:0:8:1", "commit 1 c1 @+1 0:0:8:1", "hb 1 c1 -1", "sync 1 c1 -1",
+             "commit 1 c2 -1 0:1:8:1", "hb 1 c2 @+1"]
+    h = ["reset", "meta 0=0,1,2", "join 1 c1 10000 30000 1 1 0"]
+    h += probes + stale                                   # CompletingRebalance, one member
+    h += ["sync 1 c1 @", "commit 1 c1 @ 0:0:100:1"] + probes + stale      # Stable
+    h += ["join 1 c2 10000 30000 1 1 0"] + probes + stale                 # PreparingRebalance
+    h += ["join 1 c1 10000 30000 1 1 0", "sync 1 c1 @", "sync 1 c2 @", "commit 1 c2 @ 0:1:50:1", "leave 1 c2"] + probes + stale
+    h += ["join 1 c1 10000 30000 1 1 0", "sync 1 c1 @", "failover"] + probes + stale + ["fetch 1 0:0,0:1"]
+    h += ["tick 13000", "cleanup"] + probes[:12] + ["fetch 1 0:0,0:1"]   # the group has expired: nobody is a member
+    return h
+
+
 def run(ck):
-    G.run_property(ck, PROFILE, monitor, n_quick=200, n_thorough=2000, nops=45, rule=RULE)
+    G.run_property(ck, PROFILE, monitor, n_quick=200, n_thorough=2000, nops=45, rule=RULE, extra_histories=[fence_history()])
 
 
 def replay(ck, path):
